@@ -6,3 +6,4 @@ import LLBuild.Props.C07
 import LLBuild.Props.EngineImplSound
 import LLBuild.Props.EngineImplTerm
 import LLBuild.Props.EngineImplAsync
+import LLBuild.Props.EngineImplSched4
